@@ -23,6 +23,7 @@ import (
 	"path/filepath"
 	"strings"
 	"sync"
+	"unicode/utf8"
 
 	oci "github.com/opencontainers/runtime-spec/specs-go"
 	orderedyaml "gopkg.in/yaml.v3"
@@ -144,6 +145,7 @@ func (s *Spec) write(overwrite bool) error {
 		data = append([]byte("---\n"), data...)
 	} else {
 		data, err = json.Marshal(s.Spec)
+		data = escapeUnreadable(data)
 	}
 	if err != nil {
 		return fmt.Errorf("failed to marshal Spec file: %w", err)
@@ -255,6 +257,31 @@ func (s *Spec) validate() (map[string]*Device, error) {
 	}
 
 	return devices, nil
+}
+
+// escapeUnreadable replaces the characters which encoding/json writes as
+// they are, but which the parser of Spec files does not accept or does not
+// keep (DEL and the C1 control characters including NEL, U+FFFE, U+FFFF),
+// by their JSON escapes. In marshaled JSON these can only occur in strings.
+func escapeUnreadable(data []byte) []byte {
+	var out []byte
+	start := 0
+	for i := 0; i < len(data); {
+		r, size := utf8.DecodeRune(data[i:])
+		if (r >= 0x7f && r <= 0x9f || r == 0xfffe || r == 0xffff) && !(r == utf8.RuneError && size == 1) {
+			if out == nil {
+				out = make([]byte, 0, len(data)+16)
+			}
+			out = append(out, data[start:i]...)
+			out = append(out, fmt.Sprintf("\\u%04x", r)...)
+			start = i + size
+		}
+		i += size
+	}
+	if out == nil {
+		return data
+	}
+	return append(out, data[start:]...)
 }
 
 // ParseSpec parses CDI Spec data into a raw CDI Spec.
